@@ -45,7 +45,7 @@ let runclass_of (s : string) : runclass =
 
 let predict (c : string) (obs : string) : string * string * bool =
   match split_blank c with
-  | ["cell"; kind; pre; lim; pas; n; cons; cancel] ->
+  | "cell" :: kind :: pre :: lim :: pas :: n :: cons :: cancel :: _eof ->   (* the EOF layout does not change the entries *)
       let n = int_of_string n and lim = int_of_string lim and pas = int_of_string pas in
       let cons = int_of_string cons in
       let es = List.init n (fun i -> { e_tag = nat_of_int i; e_id = nat_of_int i }) in
